@@ -48,7 +48,10 @@ CONF = {
         {"module": "Gen_Gang", "cfg": "Gen_Gang_StrictWait.cfg", "timeout": 600, "sample": {"quick": 3, "thorough": 1}},
         {"module": "Gen_Gang", "cfg": "Gen_Gang_LooseWaitRun.cfg", "timeout": 600, "sample": {"quick": 3, "thorough": 1}},
     ],
-    "go": [{"pkg": "pkg/scheduler/plugins/coscheduling/core", "test": "TestVerifC04"}],
+    "go": [{"pkg": "pkg/scheduler/plugins/coscheduling/core", "test": "TestVerifC04"},
+           # plugin level: the same executor with Permit / Unreserve / AfterPostFilter / PostBind routed through coscheduling.go
+           {"pkg": "pkg/scheduler/plugins/coscheduling", "test": "TestVerifC04Plugin",
+            "extra_pkgs": ["pkg/scheduler/plugins/coscheduling/core"]}],
     "trace": {"module": "GangTrace", "cfg": "Trace.cfg"},
     "signature": sig,
     "assumptions": [
